@@ -105,6 +105,24 @@ Theorem C39_batching_irrelevant :
     rows_of (fst (step n t1 s)) = rows_of (fst (step n t2 s)) /\ snd (step n t1 s) = snd (step n t2 s).
 Proof. exact batching_irrelevant. Qed.
 
+(* FINDING (pinned commit): the statement does not reach MemTable as written.  A WHERE clause that the
+   logical optimizer folds to FALSE or NULL (WHERE FALSE, WHERE 1 = 2, WHERE a = NULL,
+   WHERE a > 0 AND FALSE, ...) selects no row -- first theorem -- but the optimizer then replaces the
+   Filter node by an EmptyRelation and extract_dml_filters returns no filters, which MemTable reads as
+   "all rows": DELETE removes every row, UPDATE reports every row as updated -- second theorem
+   (step_upstream = the pipeline as it is; replayed on the implementation by the harness). *)
+Theorem C39_constant_where_selects_no_row :
+  forall w, folds_away w = true -> forall r, holds w r = false.
+Proof. exact folds_away_no_row. Qed.
+
+Theorem C39_upstream_constant_where_refuted :
+  exists t w,
+    (forall r, holds w r = false) /\ rows_of t <> [] /\
+    rows_of (fst (step_upstream 3 t (SDelete w))) = [] /\
+    snd (step_upstream 3 t (SDelete w)) = zlen (rows_of t) /\
+    snd (step_upstream 3 t (SUpdate [(0%nat, ILit 9)] w)) = zlen (rows_of t).
+Proof. exact upstream_constant_where_refuted. Qed.
+
 (* non-vacuity / the swap example: two partitions, an empty batch, NULLs; WHERE b > 1 is NULL on
    the row with b NULL (not updated, not deleted); SET a = b, b = a swaps. *)
 Example C39_nonvacuous_swap :
